@@ -181,6 +181,7 @@ PROPS = {
                               {"cmd": "image-prefix-tail", "mode": "image", "cases": {"quick": 1, "thorough": 1}, "corpus": True},
                               {"cmd": "image-script", "mode": "image", "args": ["--focus", "script-freelist-reopen"], "cases": {"quick": 1, "thorough": 1}, "corpus": True},
                               {"cmd": "image-range-sweep", "mode": "image", "cases": {"quick": 1, "thorough": 4}, "shards": {"quick": 4, "thorough": 16}, "per_shard_cases": True},
+                              {"cmd": "image-branch-merge-sweep", "mode": "image", "cases": {"quick": 1, "thorough": 4}, "shards": {"quick": 4, "thorough": 16}, "per_shard_cases": True},
                               {"cmd": "image-branch-ops", "mode": "image", "cases": {"quick": 8, "thorough": 160}, "shards": {"quick": 8, "thorough": 16}}, dict(IMG_RUN), dict(WAL_RUN), dict(TRIEPOS_RUN), dict(OVERFLOW_RUN), dict(LEAFUPD_RUN)] + BITOPS_RUNS + CRASH_IMAGES,
         "rule": IMG_RULE + CRASH_IMAGES_RULE + WAL_RULE + BITOPS_RULE + UNIT_RULE,
         "trusted_base": IMG_TB, "assumptions": IMG_ASSUME,
@@ -226,6 +227,7 @@ PROPS = {
             {"cmd": "image-branch-ops", "cases": {"quick": 48, "thorough": 800}, "shards": {"quick": 8, "thorough": 16}},
             # range-delete sweep: a fresh bulk-loaded store per length, one commit deleting a run of L keys inside one branch node (4 shards = 4 quarters of the sweep)
             {"cmd": "image-range-sweep", "cases": {"quick": 1, "thorough": 4}, "shards": {"quick": 4, "thorough": 16}, "per_shard_cases": True},
+            {"cmd": "image-branch-merge-sweep", "cases": {"quick": 1, "thorough": 4}, "shards": {"quick": 4, "thorough": 16}, "per_shard_cases": True},
             dict(OVERFLOW_RUN), dict(LEAFUPD_RUN),
             DB("kv", 160, 1600, nops=16, big=True),
             DB("kv", 6, 60, nops=20, big=True, scale=100, shards_q=6),
